@@ -173,6 +173,10 @@ void World::exec_op(const Op &op) {
 		if (cl->accepted) { KFd *kk = g_kernel.get(cl->fd); if (kk) g_kernel.mark_pending(*kk); }
 		return;
 	}
+	if (k == "stall" || k == "drain" || k == "wcap" || (k == "sockerr" && op.a.gets("dir", "r") == "w")) {
+		// from here on what this peer receives, and when, is no longer determined by the protocol: it joins the faulty set
+		if (!cl->faulty) { cl->faulty = true; cl->expq.clear(); probe("peer_becomes_faulty"); }
+	}
 	if (k == "stall") {
 		bool was0 = cl->space == 0;
 		cl->space = (int64_t)op.a.getd("n", 0); probe("fault:stall");
@@ -393,7 +397,7 @@ void World::setup_from_header() {
 	const JV *te = h.get("timerfd_errs"); if (te && te->t == JV::Arr) for (auto &x : te->a) g_kernel.timerfd_create_errs.push_back((int)x.d);
 	g_kernel.fs_fault_at = (int)h.getd("fs_fault_at", -1); g_kernel.fs_fault_kind = h.gets("fs_fault_kind"); g_kernel.fs_fault_arg = (long)h.getd("fs_fault_arg", 0);
 	model.host = this; model.max_matchers = g_variant.max_matchers; model.add_local_only = g_variant.add_local_only; model.default_timeout_s = g_variant.routed_timeout;
-	model.notify_prop = h.gets("notify_prop", "C01");
+	model.notify_prop = h.gets("notify_prop", "C01"); model.faulty_add_either = h.gets("relabel") == "C11";
 	model.allow_either_add = true; model.allow_either_route = true; model.route_may_fail = h.getb("route_may_fail");
 	const JV *cr = h.get("creds");
 	if (cr && cr->t == JV::Obj) {
